@@ -241,6 +241,12 @@ func init() {
 		if k := i - ctx.N(12, 90) - ctx.N(8, 32) - 107; k >= 0 && k < 9 {
 			return nestedSameDefCase(k)
 		}
+		if k := i - ctx.N(12, 90) - ctx.N(8, 32) - 116; k >= 0 && k < 6 {
+			return propsNextToAllOfCase(k)
+		}
+		if k := i - ctx.N(12, 90) - ctx.N(8, 32) - 122; k >= 0 && k < 6 {
+			return aliasDefinitionCase(k)
+		}
 		return nil
 	}
 	regSem(&semSpec{id: "C03",
@@ -2075,6 +2081,8 @@ func strataForC01(ctx *Ctx) []*sem.Case {
 	add(5, draftNumericCase)
 	add(8, typedAllOfDefinitionCase)
 	add(9, nestedSameDefCase)
+	add(6, propsNextToAllOfCase)
+	add(6, aliasDefinitionCase)
 	add(12, objectDefaultCase)
 	add(12, nullableDefCase)
 	add(16, nestedOverlapCase)
@@ -2871,6 +2879,88 @@ func nestedSameDefCase(i int) *sem.Case {
 			cls = "required"
 		}
 		c.Docs = append(c.Docs, docgen.Doc{V: jsonx.Obj{{K: "shipment", V: ship}}, Class: cls, Label: "nested-same-def"}, docgen.Doc{V: jsonx.Obj{{K: "customer", V: jsonx.Obj{{K: "billing", V: b}}}}, Class: cls, Label: "nested-same-def"})
+	}
+	return c
+}
+
+// propsNextToAllOfCase: an object that states properties and a required list of its own NEXT TO an allOf (as a
+// definition, inline at a property, as array items): the own members take part in the conjunction; integer members
+// with bounds on type limits (the shapes --min-sized-ints narrows).
+func propsNextToAllOfCase(i int) *sem.Case {
+	mk := func() *sg.Schema {
+		return &sg.Schema{Types: []string{"object"},
+			Props: []sg.Prop{{Name: "level", S: &sg.Schema{Types: []string{"integer"}, Min: sg.Fp(0), Max: sg.Fp(255)}}, {Name: "offset", S: &sg.Schema{Types: []string{"integer"}, Min: sg.Fp(-128), Max: sg.Fp(100)}}, {Name: "tag", S: &sg.Schema{Types: []string{"string"}, MinLen: 2}}},
+			Required: []string{"level"},
+			AllOf:    []*sg.Schema{{Types: []string{"object"}, Props: []sg.Prop{{Name: "id", S: &sg.Schema{Types: []string{"integer"}, Min: sg.Fp(1), Max: sg.Fp(65535)}}}, Required: []string{"id"}}}}
+	}
+	dev := mk()
+	if i%2 == 1 {
+		base := &sg.Schema{Types: []string{"object"}, Props: []sg.Prop{{Name: "id", S: &sg.Schema{Types: []string{"integer"}, Min: sg.Fp(1), Max: sg.Fp(65535)}}}, Required: []string{"id"}}
+		dev.AllOf = []*sg.Schema{{Ref: "#/$defs/Base", Target: base}}
+		root := &sg.Schema{Types: []string{"object"}, Defs: []sg.Prop{{Name: "Base", S: base}, {Name: "Device", S: dev}}}
+		return finishPropsNextToAllOf(i, root, dev)
+	}
+	root := &sg.Schema{Types: []string{"object"}, Defs: []sg.Prop{{Name: "Device", S: dev}}}
+	return finishPropsNextToAllOf(i, root, dev)
+}
+
+func finishPropsNextToAllOf(i int, root, dev *sg.Schema) *sem.Case {
+	key := "dev"
+	wrap := func(o jsonx.Obj) any { return o }
+	switch (i / 2) % 3 {
+	case 0:
+		root.Props = []sg.Prop{{Name: "dev", S: &sg.Schema{Ref: "#/$defs/Device", Target: dev}}}
+	case 1:
+		inl := *dev
+		root.Props = []sg.Prop{{Name: "dev", S: &inl}}
+	case 2:
+		root.Props = []sg.Prop{{Name: "dev", S: &sg.Schema{Types: []string{"array"}, Items: &sg.Schema{Ref: "#/$defs/Device", Target: dev}}}}
+		wrap = func(o jsonx.Obj) any { return []any{o} }
+	}
+	c := &sem.Case{Root: root, Sig: fmt.Sprintf("props-next-to-allof/%d", i%6), NoAuto: true}
+	for _, d := range []struct {
+		o   jsonx.Obj
+		cls string
+	}{
+		{jsonx.Obj{{K: "id", V: jsonx.N(1)}, {K: "level", V: jsonx.N(0)}}, "valid"}, {jsonx.Obj{{K: "id", V: jsonx.N(65535)}, {K: "level", V: jsonx.N(255)}, {K: "offset", V: jsonx.N(-128)}, {K: "tag", V: "ab"}}, "valid"},
+		{jsonx.Obj{{K: "id", V: jsonx.N(1)}}, "required"}, {jsonx.Obj{{K: "level", V: jsonx.N(1)}}, "required"},
+		{jsonx.Obj{{K: "id", V: jsonx.N(1)}, {K: "level", V: jsonx.N(256)}}, "bound"}, {jsonx.Obj{{K: "id", V: jsonx.N(1)}, {K: "level", V: jsonx.N(-1)}}, "bound"}, {jsonx.Obj{{K: "id", V: jsonx.N(1)}, {K: "level", V: jsonx.N(70000)}}, "bound"},
+		{jsonx.Obj{{K: "id", V: jsonx.N(1)}, {K: "level", V: jsonx.N(1)}, {K: "offset", V: jsonx.N(-129)}}, "bound"}, {jsonx.Obj{{K: "id", V: jsonx.N(1)}, {K: "level", V: jsonx.N(1)}, {K: "offset", V: jsonx.N(101)}}, "bound"},
+		{jsonx.Obj{{K: "id", V: jsonx.N(0)}, {K: "level", V: jsonx.N(1)}}, "bound"}, {jsonx.Obj{{K: "id", V: jsonx.N(65536)}, {K: "level", V: jsonx.N(1)}}, "bound"},
+		{jsonx.Obj{{K: "id", V: jsonx.N(1)}, {K: "level", V: jsonx.N(1)}, {K: "tag", V: "a"}}, "string"},
+	} {
+		c.Docs = append(c.Docs, docgen.Doc{V: jsonx.Obj{{K: key, V: wrap(d.o)}}, Class: d.cls, Label: "props-next-to-allof"})
+	}
+	return c
+}
+
+// aliasDefinitionCase: a definition that merely points at another definition while stating the (same) type -
+// "Owner": {"type":"object","$ref":"#/$defs/Person"} - used from a property, from array items and from another
+// definition, generated before and after the definition it points at: whatever the alias is called in the emitted
+// code, the target's rules hold behind it. Verdicts are stated (validation keywords next to $ref).
+func aliasDefinitionCase(i int) *sem.Case {
+	person := &sg.Schema{Types: []string{"object"}, Props: []sg.Prop{{Name: "name", S: &sg.Schema{Types: []string{"string"}, MinLen: 1}}, {Name: "age", S: &sg.Schema{Types: []string{"integer"}, Min: sg.Fp(0)}}}, Required: []string{"name"}}
+	aliasName := []string{"Owner", "Aaa", "Zed"}[i%3] // sorts after / before Person
+	alias := &sg.Schema{Types: []string{"object"}, Ref: "#/$defs/Person", Target: person}
+	ref := func() *sg.Schema { return &sg.Schema{Ref: "#/$defs/" + aliasName, Target: alias} }
+	root := &sg.Schema{Types: []string{"object"}, Defs: []sg.Prop{{Name: aliasName, S: alias}, {Name: "Person", S: person}},
+		Props: []sg.Prop{{Name: "owner", S: ref()}, {Name: "members", S: &sg.Schema{Types: []string{"array"}, Items: ref()}}, {Name: "lead", S: &sg.Schema{Ref: "#/$defs/Person", Target: person}}}}
+	if (i/3)%2 == 1 {
+		team := &sg.Schema{Types: []string{"object"}, Props: []sg.Prop{{Name: "boss", S: ref()}}}
+		root.Defs = append(root.Defs, sg.Prop{Name: "Bteam", S: team})
+		root.Props = append(root.Props, sg.Prop{Name: "team", S: &sg.Schema{Ref: "#/$defs/Bteam", Target: team}})
+	}
+	c := &sem.Case{Root: root, Sig: fmt.Sprintf("alias-definition/%d", i%6), NoAuto: true}
+	for _, d := range []struct {
+		v  any
+		st string
+	}{{jsonx.Obj{{K: "name", V: "Ann"}, {K: "age", V: jsonx.N(41)}}, "accept"}, {jsonx.Obj{{K: "age", V: jsonx.N(41)}}, "reject"}, {jsonx.Obj{}, "reject"}, {jsonx.Obj{{K: "name", V: ""}}, "reject"}, {jsonx.Obj{{K: "name", V: "Ann"}, {K: "age", V: jsonx.N(-1)}}, "reject"}} {
+		c.Docs = append(c.Docs, docgen.Doc{V: jsonx.Obj{{K: "owner", V: d.v}}, Class: "required", Label: "alias-definition", Stated: d.st},
+			docgen.Doc{V: jsonx.Obj{{K: "members", V: []any{d.v}}}, Class: "required", Label: "alias-definition", Stated: d.st},
+			docgen.Doc{V: jsonx.Obj{{K: "lead", V: d.v}}, Class: "required", Label: "alias-definition", Stated: d.st})
+		if root.Prop("team") != nil {
+			c.Docs = append(c.Docs, docgen.Doc{V: jsonx.Obj{{K: "team", V: jsonx.Obj{{K: "boss", V: d.v}}}}, Class: "required", Label: "alias-definition", Stated: d.st})
+		}
 	}
 	return c
 }
